@@ -26,7 +26,7 @@ else
 fi
 cd /verif
 for p in $PROPS; do
-  out=$(VERIF_NOEVIDENCE=1 VERIF_BUDGET=${VERIF_BUDGET:-40} ./bin/vcheck $p --tier quick 2>&1); rc=$?
+  out=$(VERIF_NOEVIDENCE=1 ./bin/vcheck $p --tier quick 2>&1); rc=$?
   sigs=$(echo "$out" | grep "^violation:" | sed 's/^violation: //' | tr '\n' ' ')
   echo "$ID $p exit=$rc $sigs"
 done
